@@ -380,6 +380,13 @@ fn systematic_histories() -> Vec<History> {
     long.push(plain("unset -f f1; cd inner", "late-unset"));
     long.push(plain("true", "use"));
     out.push(History { real_history: true, id: "sys-long-14".into(), snippets: long.clone() });
+    // a directory stack of twelve entries
+    let deep: String = (0..6).map(|_| "pushd d2 >/dev/null; pushd inner >/dev/null; cd \"$VS_BASE\"; ").collect();
+    out.push(History {
+        real_history: true,
+        id: "sys-dirstack-13".into(),
+        snippets: vec![plain(&deep, "dirstack-deep"), plain("popd >/dev/null; pushd 'd 1' >/dev/null", "dirstack-modify"), plain("popd >/dev/null; popd >/dev/null", "popd"), plain("true", "use")],
+    });
     long.truncate(12);
     out.push(History { real_history: true, id: "sys-long-12b".into(), snippets: long });
     for (i, wipe) in ["find \"$VS_TMP\" -mindepth 1 -delete 2>/dev/null; true", "rm -rf \"$VS_TMP\"; mkdir -p \"$VS_TMP\""].iter().enumerate() {
@@ -662,6 +669,8 @@ fn minimise_history(h: &History, keep: &dyn Fn(&History) -> bool) -> History {
 pub fn run_real(prop: &str, tier: &str, seed: u64, threads: usize, known: &KnownFile) -> RealReport {
     // the variable every bash started from here inherits (finding G is about unsetting it)
     std::env::set_var(INHERITED, "inherited-value");
+    // (and one whose name begins with that name: a test by prefix must not confuse the two)
+    std::env::set_var(format!("{}2", INHERITED), "second-inherited-value");
     match prop {
         "C12" => run_c12(tier, seed, threads, known),
         "C13" => run_c13_conformance(tier, seed, threads),
@@ -1201,6 +1210,7 @@ pub fn replay_real(path: &str, text: &str) -> i32 {
         };
     }
     std::env::set_var(INHERITED, "inherited-value");
+    std::env::set_var(format!("{}2", INHERITED), "second-inherited-value");
     let h: History = match serde_json::from_str(text) {
         Ok(h) => h,
         Err(e) => {
